@@ -272,16 +272,15 @@ def run(ctx):
         okf = any(expr(cb, 0).startswith("Not(check_explicit(") and any("IsPresent" in agg_variants(cb, cc.args[2]) for cc in cb.calls_to(r"ArgMatcher::check_explicit$")) for cb in cbs)
         res.check(okf, "R3.6", "candidates-absent-only", c.where(), "conditional requirements examined for arguments not explicitly present",
                   "conditional requirements are examined for a different candidate set than `not explicitly present`: %s" % [expr(cb, 0)[:80] for cb in cbs])
-    # fails_arg_required_unless polarity
-    falses = [i for i, j, s_ in fu.stmts() if s_["k"] == "assign" and s_["place"] == 0 and s_["rv"]["k"] == "use" and op_int(s_["rv"]["op"]) == 0]
-    others = [(i, s_) for i, j, s_ in fu.stmts() if s_["k"] == "assign" and s_["place"] == 0 and not (s_["rv"]["k"] == "use" and op_int(s_["rv"]["op"]) is not None)]
-    okA = any(any(re.match(r"^T:all\(iter\(a\.r_unless_all\)", g) for g in guard_strs(fu, i)) and any(re.match(r"^F:is_empty\(a\.r_unless_all\)$", g) for g in guard_strs(fu, i)) for i in falses)
-    okB = any(re.match(r"^Not\(any\(iter\(a\.r_unless\),", expr(fu, s_["rv"]["a"]) if s_["rv"]["k"] == "unop" else "") is not None or
-              (s_["rv"]["k"] == "unop" and s_["rv"]["op"] == "Not" and re.match(r"^any\(iter\(a\.r_unless\),", expr(fu, s_["rv"]["a"])) is not None) for i, s_ in others)
-    if falses or others:
-        res.check(okA and okB, "R3.6", "unless-polarity", fu.where(), "false iff (r_unless_all non-empty and all present) or (any of r_unless present)",
-                  "fails_arg_required_unless no longer returns false exactly when all of r_unless_all / any of r_unless is present (all-branch ok=%s, any-branch ok=%s)" % (okA, okB))
-
+    # fails_arg_required_unless polarity: truth table over (E = r_unless_all empty, L = all of r_unless_all present, A = any of r_unless present)
+    tbl = bool_table(fu, [("E", r"^is_empty\(a\.r_unless_all\)$"), ("L", r"^all\(iter\(a\.r_unless_all\)"), ("A", r"^any\(iter\(a\.r_unless\)")])
+    wrong = sorted((k, v) for k, v in tbl.items() if v is not None and v != ((k[0] or not k[1]) and not k[2]))
+    unknown = [k for k, v in tbl.items() if v is None]
+    if unknown and not wrong:
+        res.floor("R3.6", "truth table of fails_arg_required_unless (rows the evaluator could follow)", 8 - len(unknown), 8)
+    else:
+        res.check(not wrong, "R3.6", "unless-polarity", fu.where(), "fails = (r_unless_all empty or not all present) and none of r_unless present — all 8 rows",
+                  "fails_arg_required_unless differs from `(unless_all.is_empty() || !all present) && !any present` for (empty, all, any) = %s" % wrong[:3])
 
     # ---- R3.7 requires propagation
     gr = fx.body("clap_builder::parser::validator::Validator::gather_requires")
